@@ -11,6 +11,7 @@ import (
 	"go/types"
 	"math"
 	"math/big"
+	mbits "math/bits"
 	"path/filepath"
 	"strconv"
 	"strings"
@@ -363,6 +364,21 @@ func init() {
 			}
 			return l, true
 		},
+		"math/bits.TrailingZeros64": bitsIntrinsic(64, 0),
+		"math/bits.TrailingZeros":   bitsIntrinsic(64, 0),
+		"math/bits.TrailingZeros32": bitsIntrinsic(32, 0),
+		"math/bits.TrailingZeros16": bitsIntrinsic(16, 0),
+		"math/bits.TrailingZeros8":  bitsIntrinsic(8, 0),
+		"math/bits.LeadingZeros64":  bitsIntrinsic(64, 1),
+		"math/bits.LeadingZeros":    bitsIntrinsic(64, 1),
+		"math/bits.LeadingZeros32":  bitsIntrinsic(32, 1),
+		"math/bits.LeadingZeros16":  bitsIntrinsic(16, 1),
+		"math/bits.LeadingZeros8":   bitsIntrinsic(8, 1),
+		"math/bits.Len64":           bitsIntrinsic(64, 2),
+		"math/bits.Len":             bitsIntrinsic(64, 2),
+		"math/bits.Len32":           bitsIntrinsic(32, 2),
+		"math/bits.Len16":           bitsIntrinsic(16, 2),
+		"math/bits.Len8":            bitsIntrinsic(8, 2),
 		"crypto/rand.Read": func(ex *Exec, _ *frame, _ *ssa.Function, a []Value) (Value, bool) {
 			// entropy is never used by the checks (the counter's source is replaced): zeros
 			b := a[0].([]Value)
@@ -906,4 +922,79 @@ func atomicCAS(ex *Exec, _ *frame, fn *ssa.Function, a []Value) (Value, bool) {
 		return true, true
 	}
 	return false, true
+}
+
+// ---------- math/bits: logarithmic-depth encodings ----------
+// (the library versions use a de Bruijn multiplication and table look-ups,
+// which bit-blast badly; these are the textbook binary searches, validated
+// against math/bits on concrete values by `./run setup`)
+
+func (ex *Exec) tzTerm(x *Term) *Term { // x: BV64; result BV64 in 0..64
+	tc := ex.tc
+	n, y := tc.BV(64, 0), x
+	for _, s := range []uint64{32, 16, 8, 4, 2, 1} {
+		c := tc.Eq(tc.BAnd(y, tc.BV(64, uint64(1)<<s-1)), tc.BV(64, 0))
+		n = tc.Ite(c, tc.Add(n, tc.BV(64, s)), n)
+		y = tc.Ite(c, tc.bin(OpLShr, y, tc.BV(64, s)), y)
+	}
+	return tc.Ite(tc.Eq(x, tc.BV(64, 0)), tc.BV(64, 64), n)
+}
+
+func (ex *Exec) lzTerm(x *Term) *Term { // x: BV64; result BV64 in 0..64
+	tc := ex.tc
+	n, y := tc.BV(64, 0), x
+	for _, s := range []uint64{32, 16, 8, 4, 2, 1} {
+		c := tc.Eq(tc.bin(OpLShr, y, tc.BV(64, 64-s)), tc.BV(64, 0))
+		n = tc.Ite(c, tc.Add(n, tc.BV(64, s)), n)
+		y = tc.Ite(c, tc.bin(OpShl, y, tc.BV(64, s)), y)
+	}
+	return tc.Ite(tc.Eq(x, tc.BV(64, 0)), tc.BV(64, 64), n)
+}
+
+// bitsIntrinsic builds the intrinsic for a math/bits counting function on
+// w-bit operands: kind 0 trailing zeros, 1 leading zeros, 2 length.
+func bitsIntrinsic(w int, kind int) intrinsicFn {
+	return func(ex *Exec, _ *frame, _ *ssa.Function, a []Value) (Value, bool) {
+		mask := ^uint64(0)
+		if w < 64 {
+			mask = uint64(1)<<uint(w) - 1
+		}
+		switch x := a[0].(type) {
+		case int64:
+			u := uint64(x) & mask
+			switch kind {
+			case 0:
+				if u == 0 {
+					return int64(w), true
+				}
+				return int64(mbits.TrailingZeros64(u)), true
+			case 1:
+				return int64(mbits.LeadingZeros64(u) - (64 - w)), true
+			default:
+				return int64(mbits.Len64(u)), true
+			}
+		case *Term:
+			if x.Sort.K != SBV {
+				return nil, false
+			}
+			t := x
+			if int(t.Sort.W) < 64 {
+				t = ex.tc.ZExt(t, 64)
+			}
+			var r *Term
+			switch kind {
+			case 0:
+				r = ex.tzTerm(t)
+				if w < 64 {
+					r = ex.tc.Ite(ex.tc.Eq(t, ex.tc.BV(64, 0)), ex.tc.BV(64, uint64(w)), r)
+				}
+			case 1:
+				r = ex.tc.Sub(ex.lzTerm(t), ex.tc.BV(64, uint64(64-w)))
+			default:
+				r = ex.tc.Sub(ex.tc.BV(64, 64), ex.lzTerm(t))
+			}
+			return ex.intVal(r, intKind{64, true}), true
+		}
+		return nil, false
+	}
 }
